@@ -109,6 +109,9 @@ func vfStartSession(r *vfRun, ops []vfOp) *vfSession {
 	s.wc.halfCls = sc.cfg("halfclose", 0) != 0
 	s.wc.dataTag = s.tag
 	s.wc.nextID = 10 + uint32(s.tag%5000) // request ids vary per run
+	if b := sc.cfg("idbase", 0); b > 0 {
+		s.wc.nextID = uint32(b - 1) // ... and in some runs they are as small as the servers' own order ids
+	}
 	s.srv.c2s.noFrag = sc.cfg("nofrag", 0) != 0
 	s.srv.c2s.errWithData = sc.cfg("errwithdata", 0) != 0
 	return s
